@@ -21,8 +21,11 @@ func c16History(c *evid.Ctx, seed int64) {
 	cl := vsim.NewCluster(rng, 3+rng.Intn(3))
 	defer cl.Close()
 	steps := 25 + rng.Intn(50)
+	if seed%2 == 0 {
+		cl.FailProb = 0.08
+	}
 	// flags per node: what happened since the node's previous checkpoint
-	type flags struct{ tail, restart, leader, head bool }
+	type flags struct{ tail, restart, leader, head, appendfail bool }
 	fl := make([]flags, len(cl.Nodes))
 	judge := func() bool {
 		if !cl.QuiesceAll() {
@@ -30,6 +33,10 @@ func c16History(c *evid.Ctx, seed int64) {
 			return false
 		}
 		for ni, n := range cl.Nodes {
+			if cl.FailedOn[ni] {
+				fl[ni].appendfail = true
+				delete(cl.FailedOn, ni)
+			}
 			for _, r := range n.TakeReports() {
 				j := cl.Judge(n, r)
 				c.Count("reports", 1)
@@ -37,7 +44,7 @@ func c16History(c *evid.Ctx, seed int64) {
 				if j.CP != nil && j.CP.Leader == n.Name {
 					role = "leader"
 				}
-				ctx := fmt.Sprintf("%s|tail=%v|restart=%v|leaderchange=%v|head=%v", role, fl[ni].tail, fl[ni].restart, fl[ni].leader, fl[ni].head)
+				ctx := fmt.Sprintf("%s|tail=%v|restart=%v|leaderchange=%v|head=%v|appendfail=%v", role, fl[ni].tail, fl[ni].restart, fl[ni].leader, fl[ni].head, fl[ni].appendfail)
 				switch {
 				case r.Err == nil:
 					c.Count("reports_ok", 1)
@@ -150,6 +157,7 @@ func c16History(c *evid.Ctx, seed int64) {
 	c.Count("leader_changes", int64(cl.NLeaderChange))
 	c.Count("head_truncations", int64(cl.NHeadTrunc))
 	c.Count("checkpoints", int64(cl.NCheckpoint))
+	c.Count("refused_appends", int64(cl.NAppendFail))
 	if seed%997 == 0 || c.Get("histories") <= 2 {
 		c.Sample(map[string]any{"seed": seed, "nodes": len(cl.Nodes), "events": tail(cl.Events, 25)})
 	}
@@ -163,7 +171,7 @@ func tail(s []string, n int) []string {
 }
 
 func runC16(c *evid.Ctx) {
-	c.Rule("random multi-node histories (3-5 nodes, each the real verifier.LogStore over an InmemStore): leader appends with checkpoints, replication in arbitrary batch splits and lags, leadership changes with conflicting suffixes (follower tail truncation + re-append), middleware restarts, head truncations; no corruption is injected; every delivered report is judged against the harness's ground truth of what the checkpoint's leader held; non-trivial = distinct (role, what preceded the checkpoint on that node: tail truncation / restart / leader change / head truncation, range held or not)",
+	c.Rule("random multi-node histories (3-5 nodes, each the real verifier.LogStore over an InmemStore): leader appends with checkpoints, replication in arbitrary batch splits and lags, leadership changes with conflicting suffixes (follower tail truncation + re-append), middleware restarts, head truncations, and - in half of the histories - appends refused now and then by a node's underlying store (a follower's batch is re-sent with a new split, a leader steps down), so that the stores still end up holding exactly what the leaders wrote; no corruption is injected; every delivered report is judged against the harness's ground truth of what the checkpoint's leader held; non-trivial = distinct (role, what preceded the checkpoint on that node: tail truncation / restart / leader change / head truncation / refused append, range held or not)",
 		"checkpoints_judged", "contexts")
 	c.Assume("ranges are not modified while their verification runs (the driver waits, by metric counts, for each report before the next step)", "FNV-1a collisions not searched for")
 	n := 1500
